@@ -436,7 +436,49 @@ def rule_prev_check(ctx, rule="R28e"):
            b.where, key="%s|%s|%s|no-previous-entry-check" % (ctx.pid, rule, CL + "validate_log_append"))
 
 
+def rule_reconcile_from_commit(ctx, rule="R28f"):
+    """A follower that reported a log mismatch is re-sent everything above a COMMIT index (its own reported commit, or
+    the one the leader tracks for it): everything above the commit may diverge and must be overwritten.  Re-sending only
+    from the follower's log index keeps a stale uncommitted entry of an older term in place."""
+    fa = ctx.facts
+    b = fa.body(CL + "reconcile::{closure#0}") or fa.body(CL + "reconcile")
+    if b is None:
+        ctx.ob(rule, "anchor:reconcile", False, "mechanism `Cluster::reconcile` not found",
+               key="%s|%s|missing-anchor|reconcile" % (ctx.pid, rule))
+        return
+    logs = [(i, t) for i, t in cfg.calls(b) if (cfg.callee_decl(t) or "").endswith("raft::Storage::logs")]
+    bad_seeds, good_seeds = [], []
+    for bi, s in cfg.assigns(b):
+        r = s["r"]
+        pl = cfg.op_place(r["o"]) if r["k"] in ("use", "cast") else (r["p"] if r["k"] == "ref" else None)
+        if not pl or len(s["l"]) != 1:
+            continue
+        fields = [e for e in pl[1:] if e.startswith(".")]
+        if ".log_index" in fields or (".index" in fields and (".local" in fields or ".requested" in fields)):
+            bad_seeds.append(s["l"][0])
+        if ".log_commit" in fields or ".commit" in fields:
+            good_seeds.append(s["l"][0])
+    thr = lambda n: cfg.is_transparent(n) or (n or "").endswith(("::unwrap_or", "::unwrap_or_default", "::unwrap_or_else"))
+    bad = cfg.derived_locals(b, bad_seeds, through=thr)
+    good = cfg.derived_locals(b, good_seeds, through=thr)
+    ok = bool(logs)
+    detail = "Storage::logs not called in reconcile"
+    for i, t in logs:
+        o = cfg.op_origin(b, t["a"][1]) if len(t["a"]) > 1 else None
+        from_commit = o is not None and (o[0] in good or cfg.op_place(t["a"][1])[0] in good)
+        from_index = o is not None and (o[0] in bad or cfg.op_place(t["a"][1])[0] in bad)
+        ok = ok and from_commit and not from_index
+        detail = ("logs are re-sent from a commit index" if ok else
+                  "reconcile re-sends logs from a value that derives from a LOG index (from commit: %s, from log index: %s): "
+                  "a divergent uncommitted entry of the follower is kept below the re-sent tail" % (from_commit, from_index))
+    ctx.ob(rule, "reconcile:resend-from-commit", ok, detail, b.where)
+
+
 def run(ctx):
+    # two leaders in one term each commit their own entry at the same index: C27's election rules are a
+    # precondition of log agreement and are re-evaluated under this property
+    R.run(ctx)
+    rule_reconcile_from_commit(ctx)
     rule_commit_monotone(ctx)
     rule_validated_first(ctx)
     rule_accept_above_commit(ctx)
